@@ -23,7 +23,7 @@ func (f *Frame) oblige(st *State, kind, name string, pos token.Pos, goal Term, t
 		return
 	}
 	in.obls = append(in.obls, &Obligation{Name: name, Func: in.topKey, Kind: kind, Pos: in.W.Fset.Position(pos),
-		Decls: -1, Global: -1, Hyps: append([]Term(nil), st.hyps...), Goal: goal, Text: text, Path: pathSig(st), Inputs: in.inputs})
+		Decls: -1, Global: -1, Hyps: append([]Term(nil), st.hyps...), Goal: goal, Text: text, Path: pathSig(st), Inputs: in.inputs, Group: f.curGroup})
 }
 
 func pathSig(st *State) string {
